@@ -1,4 +1,4 @@
-from vrun import Query
+from vrun import Query, SmtQuery
 import os
 SRC = 'C20_math.cpp'
 REF = dict(extra_c=['C20_ref.c'], native_extra=[os.path.join(os.path.dirname(os.path.dirname(os.path.dirname(os.path.abspath(__file__)))), 'harness', 'C20_ref.c')])
@@ -33,9 +33,19 @@ def queries():
         Q('divceil_small', 'h_divceil_small', 'div_ceil/round_up <uint8_t>: all n, all k > 0 (wider divisions: see ll2smt queries)'),
         Q('absdiff_sgn', 'h_absdiff_sgn', 'abs_diff <unsigned>,<uint64_t>,<uint8_t>,<int>; sgn <int>,<long long>,<int8_t>,<unsigned>: all values'),
     ]
+    for fn, ct, d in (('p_divceil_u16', 'uint16_t', 'uint16_t'), ('p_divceil_u32', 'uint32_t', 'unsigned'), ('p_divceil_u64', 'uint64_t', 'uint64_t'), ('p_divceil_i32', 'int32_t', 'int (n >= 0, k > 0)'), ('p_divceil_i64', 'int64_t', 'long (n >= 0, k > 0)')):
+        qs.append(SmtQuery('smt_' + fn[2:], 'C20_smt.cpp', fn, 'div_ceil / round_up <%s>: all n, all k > 0 with n + k - 1 representable; integer SMT (Int with explicit mod 2^N wrap), z3 + cvc5' % d, kind='int', ctype=ct, timeout=180))
+    for i in range(0, 4):
+        for j in range(0, 4):
+            for pe in (False, True):
+                fn = 'p_agg_%s_%d_%d' % ('pluseq' if pe else 'plus', i, j)
+                qs.append(SmtQuery('smt_' + fn[2:], 'C20_smt.cpp', fn, 'Aggregate<double>: %s of aggregates with %d and %d values == feeding all values into one aggregate (count, min, max, mean, variance(0), variance(1)); real arithmetic (QF_NRA), all real values' % ('A += B' if pe else 'A + B', i, j),
+                                   kind='real', timeout=180, tiers=('quick', 'thorough') if i + j <= 4 else ('thorough',)))
+                if i <= 2 and j <= 1:
+                    qs.append(SmtQuery('smt_' + fn[2:] + '_thenadd', 'C20_smt.cpp', fn, 'same, and the combined aggregate keeps agreeing with the sequential one after one further add()', kind='real', defs=['AGG_THEN_ADD'], timeout=180))
     return qs
 
 ASSUMPTIONS = ['log2 of x <= 0, rounding of x <= 0 to a power of two, div_ceil/round_up with k == 0, negative operands or n + k - 1 not representable are outside the documented domain and excluded',
                'x86 rol/ror inline assembly is modelled per the Intel SDM (count masked to 5/6 bits)']
-OUTSIDE = ['128-bit types', 'floating-point instantiations of sgn/abs_diff']
+OUTSIDE = ['128-bit types', 'floating-point instantiations of sgn/abs_diff', 'Aggregate: IEEE rounding itself (the identities are decided over the reals, as the property says "up to floating-point rounding"); multisets larger than 3 + 3 values']
 EXPLANATION = 'bit-vector equivalence of each tlx math helper (intrinsic overload, *_template, *_generic) with a definitional C reference on the full domain of the type'
